@@ -1,12 +1,13 @@
 // ---- reference semantics: mathematical values, views, operator specs (written from the property statements) ----
 pub enum SVal {
     List(Seq<SVal>),
-    Map(vstd::map::Map<Key, SVal>),
+    Map(vstd::map::Map<SKey, SVal>),
     Function(Seq<char>, Option<Box<SVal>>),
     Int(int), UInt(int), Float(f64), Str(Seq<char>), Bytes(Seq<u8>), Bool(bool),
     Duration(int), Timestamp(int, int),   // nanoseconds; (nanoseconds since epoch, offset seconds)
     Null,
 }
+pub enum SKey { Int(int), Uint(int), Bool(bool), Str(Seq<char>) }
 pub enum ErrClass {
     Unmodelled,
     InvalidArgumentCount, UnsupportedTargetType, NotSupportedAsMethod, UnsupportedKeyType, UnexpectedType,
@@ -20,17 +21,26 @@ pub open spec fn vlist(l: Seq<Value>) -> Seq<SVal>
 {
     Seq::new(l.len(), |i: int| if 0 <= i < l.len() { vview(l[i]) } else { SVal::Null })
 }
-pub open spec fn vmap(m: vstd::map::Map<Key, Value>) -> vstd::map::Map<Key, SVal>
-    decreases m
-{
-    vstd::map::Map::new(m.dom(), |k: Key| if m.contains_key(k) { vview(m[k]) } else { SVal::Null })
+pub open spec fn kview(k: Key) -> SKey {
+    match k { Key::Int(i) => SKey::Int(i as int), Key::Uint(u) => SKey::Uint(u as int), Key::Bool(b) => SKey::Bool(b), Key::String(s) => SKey::Str(s@) }
 }
+/// abstract map: keys through the (injective) kview, values through vview
+pub open spec fn amap(m: vstd::map::Map<Key, Value>) -> vstd::map::Map<SKey, SVal>
+    decreases m via amap_dec
+{
+    vstd::map::Map::new(
+        m.dom().map(|k: Key| kview(k)),
+        |sk: SKey| { let k = choose|k: Key| m.contains_key(k) && kview(k) == sk; if m.contains_key(k) { vview(m[k]) } else { SVal::Null } },
+    )
+}
+#[via_fn]
+proof fn amap_dec(m: vstd::map::Map<Key, Value>) {}
 pub open spec fn vview(v: Value) -> SVal
     decreases v
 {
     match v {
         Value::List(l) => SVal::List(vlist(l@)),
-        Value::Map(m) => SVal::Map(vmap(m.map@)),
+        Value::Map(m) => SVal::Map(amap(m.map@)),
         Value::Function(n, t) => SVal::Function(n@, match t { Some(b) => Some(Box::new(vview(*b))), None => None }),
         Value::Int(i) => SVal::Int(i as int),
         Value::UInt(u) => SVal::UInt(u as int),
@@ -185,5 +195,33 @@ pub broadcast proof fn lemma_vlist_concat(a: Seq<Value>, b: Seq<Value>)
 {
     assert forall|i: int| 0 <= i < (a + b).len() implies #[trigger] vlist(a + b)[i] == (vlist(a) + vlist(b))[i] by {
         if i < a.len() { assert((a + b)[i] == a[i]); } else { assert((a + b)[i] == b[i - a.len()]); }
+    }
+}
+
+pub proof fn lemma_kview_injective(a: Key, b: Key)
+    requires kview(a) == kview(b)
+    ensures a == b
+{
+    broadcast use ax::axiom_string_ext;
+    match (a, b) {
+        (Key::String(x), Key::String(y)) => { assert(x@ =~= y@); assert(*x == *y); }
+        _ => {}
+    }
+}
+pub proof fn lemma_amap_get(m: vstd::map::Map<Key, Value>, k: Key)
+    ensures
+        m.contains_key(k) ==> (amap(m).contains_key(kview(k)) && amap(m)[kview(k)] == vview(m[k])),
+        !m.contains_key(k) ==> !amap(m).contains_key(kview(k)),
+{
+    if m.contains_key(k) {
+        assert(m.dom().contains(k));
+        assert(m.dom().map(|k: Key| kview(k)).contains(kview(k)));
+        let k2 = choose|k2: Key| m.contains_key(k2) && kview(k2) == kview(k);
+        lemma_kview_injective(k2, k);
+    } else {
+        if amap(m).contains_key(kview(k)) {
+            let k2 = choose|k2: Key| m.dom().contains(k2) && kview(k2) == kview(k);
+            lemma_kview_injective(k2, k);
+        }
     }
 }
